@@ -281,6 +281,11 @@ package xmpp
 //@ func (xmpp.Transport).GetDecoder(t) (d)
 //@   ensures d != nil
 //@ func (xmpp.Transport).Close(t) (err)
+//@ func (xmpp.Transport).Write(t, p) (n, err)
+//@   emit Write(t, bytes(p), err == nil)
+//@   ensures err == nil ==> n == len(p)
+//@   ensures n >= 0 && n <= len(p)
+//@ event Marshaled(v Iface)
 //@ func (stanza.Packet).Name(p) (name)
 //@ func (xmpp.Transport).ReceivedStreamClose(t)
 //
@@ -462,3 +467,24 @@ package xmpp
 //@   ensures s.transport == old(s.transport)
 //@   assigns s.err, s.Features, s.StreamId
 //@   emits Decoded, StreamStarted
+
+// ---------------------------------------------------------------------------
+// C11 / C09: resumption and enabling of stream management
+//
+//@ pred smStateZero(s) := s.SMState.Id == "" && s.SMState.Inbound == 0 && s.SMState.UnAckQueue == nil && s.SMState.preferredReconAddr == "" && s.SMState.StreamErrorGroup == nil
+//@ pred smStateKept(s) := s.SMState.Id == old(s.SMState.Id) && s.SMState.Inbound == old(s.SMState.Inbound) && s.SMState.UnAckQueue == old(s.SMState.UnAckQueue)
+//@ pred newReadIs(T) := count(PacketRead) == old(count(PacketRead)) + 1 && typeof(last(PacketRead)) == T
+//
+//@ func (*xmpp.Session).resume(s, o) (ok)
+//@   requires s != nil && s.transport != nil
+//@   ensures [C11.resume.never]   (!old(stanza.smOffered(s.Features)) || old(s.SMState.Id) == "") ==> !ok && count(Write) == old(count(Write)) && count(PacketRead) == old(count(PacketRead)) && smStateKept(s) && s.err == old(s.err)
+//@   ensures [C11.resume.once]    count(Write) <= old(count(Write)) + 1 && count(PacketRead) <= old(count(PacketRead)) + 1
+//@   ensures [C11.resume.ok]      ok ==> count(Write) == old(count(Write)) + 1 && newReadIs(stanza.SMResumed) && last(PacketRead).(stanza.SMResumed).PrevId == old(s.SMState.Id) && atlast(Write) < atlast(PacketRead) && smStateKept(s) && s.err == nil
+//@   ensures [C11.resume.stale]   (!ok && count(Write) == old(count(Write)) + 1 && last(Write, 2)) ==> smStateZero(s)
+//@   ensures [C11.resume.refused] (!ok && newReadIs(stanza.SMFailed)) ==> s.err == nil
+//@   ensures [C11.resume.other]   (!ok && count(PacketRead) == old(count(PacketRead)) + 1 && typeof(last(PacketRead)) != stanza.SMFailed) ==> s.err != nil
+//@   ensures s.transport == old(s.transport) && s.Features == old(s.Features) && s.BindJid == old(s.BindJid)
+//@   assigns s.err, s.SMState
+//@   emits Write, PacketRead, StanzaRead, AckReqRead, StreamErrRead, TokenRead
+//@   at call Marshal assert [C11.resume.id,C09.resume.h] typeof($v) == stanza.SMResume && $v.(stanza.SMResume).PrevId == s.SMState.Id && $v.(stanza.SMResume).H == addr(s.SMState.Inbound)
+//@   at call Write assert [C11.resume.wire] bytes($p) == xmlOf(last(Marshaled)) && typeof(last(Marshaled)) == stanza.SMResume
